@@ -503,6 +503,9 @@ func c16WellKnown(c *mon.Ctx, st *scriptedTransport) {
 		"oversized-with-length": {status: 200, body: []byte(`{"m.server":"d.example","p":"` + strings.Repeat("x", 51200) + `"}`), contentLength: true},
 		"oversized-no-length":   {status: 200, body: append([]byte(`{"m.server":"d.example"}`), []byte(strings.Repeat("\n", 51200))...), contentLength: false},
 		"exactly-50KiB":         {status: 200, body: append([]byte(`{"m.server":"d.example"}`), []byte(strings.Repeat(" ", 51200-24))...), contentLength: false},
+		"exactly-50KiB-with-length": {status: 200, body: append([]byte(`{"m.server":"d.example"}`), []byte(strings.Repeat(" ", 51200-24))...), contentLength: true},
+		"one-byte-over-with-length": {status: 200, body: append([]byte(`{"m.server":"d.example"}`), []byte(strings.Repeat(" ", 51201-24))...), contentLength: true},
+		"one-byte-over-no-length":   {status: 200, body: append([]byte(`{"m.server":"d.example"}`), []byte(strings.Repeat(" ", 51201-24))...), contentLength: false},
 		"no-m.server":           {status: 200, body: []byte(`{}`), contentLength: true},
 		"lookalike-M.SERVER":    {status: 200, body: []byte(`{"M.SERVER":"d.example"}`), contentLength: true},
 		"lookalike-M.Server":    {status: 200, body: []byte(`{"M.Server":"d.example","other":1}`), contentLength: true},
@@ -517,7 +520,7 @@ func c16WellKnown(c *mon.Ctx, st *scriptedTransport) {
 			st.mu.Unlock()
 			res, err := fclient.LookupWellKnown(context.Background(), "wk.example")
 			c.Count("well_known_lookups")
-			wantOK := name == "exactly-50KiB"
+			wantOK := name == "exactly-50KiB" || name == "exactly-50KiB-with-length"
 			if wantOK && err != nil {
 				c.Failf("wellknown:rejects-good-reply", "a well-known reply of exactly 50 KiB is refused: %v", err)
 			}
